@@ -2,7 +2,7 @@
     Extract Constant; N, Z, positive and nat stay the extracted datatypes. *)
 From Coq Require Import Extraction ExtrOcamlBasic.
 From PM Require Import Model.Prelude Model.Domain Model.Constraint Model.BindAll Model.Scheme
-  Model.BindMaps Model.DomTable.
+  Model.BindMaps Model.DomTable Model.DomString Model.DomMatrix.
 
 Extraction Language OCaml.
 Set Extraction KeepSingleton.
@@ -13,4 +13,5 @@ Extraction "model.ml"
   (* C13 *) bind_all
   (* C16 *) try_new is_satisfied_calls
   (* maps *) aget abind aretain retain_default
-  (* table domain *) table_dom t_reqf.
+  (* maps *) mrun retain_rounds_default mmget_panics
+  (* domains *) table_dom t_reqf string_dom matrix_dom s_cvec m_cvec.
